@@ -218,7 +218,7 @@ def impl(case):
         s['columns'] = [[c[0], c[1], c[2], [lib.fhex(x) for x in c[3]]] for c in m.__dict__['_columns'][ncol:]]
         tw = _snapshot(u, case['nvars'])
         tw['out'] = out_u
-        tw['traces_untouched'] = all(len(t.index) == 0 and t.values.shape == (0,) for t in u.__dict__['_trace'])
+        tw['traces_untouched'] = all(len(t.index) == 0 for t in u.__dict__['_trace'])
         s['twin'] = tw
         steps.append(s)
     return {'steps': steps, 'names_follow_edits': _names_follow_edits(m, specs)}
@@ -501,7 +501,7 @@ def impl_init(case):
     except Exception as ex:
         return {'init': ['raise', type(ex).__name__]}
     trs = m[tn]
-    return {'init': ['ok', [_init_id(case, x) for x in m.index], len(trs), all(t.is_empty() and t.index == [] and list(t.names) == [] for t in trs)]}
+    return {'init': ['ok', [_init_id(case, x) for x in m.index], len(trs), all(len(t.index) == 0 and list(t.names) == [] for t in trs)]}
 
 
 def _frames(m, name_id):
@@ -620,7 +620,7 @@ def impl_parsed(case):
     s['columns'] = [[c[0], c[1], c[2], [lib.fhex(x) for x in c[3]]] + list(c[4:]) for c in m.__dict__['_columns']]
     tw = snap(u)
     tw['out'] = out_u
-    tw['traces_untouched'] = all(len(t.index) == 0 and t.values.shape == (0,) for t in u.__dict__['_trace'])
+    tw['traces_untouched'] = all(len(t.index) == 0 for t in u.__dict__['_trace'])
     s['twin'] = tw
     # the action script of this run: after pass k of period p the column is ..., and the pass raised / returned
     scripts = {}
@@ -866,6 +866,7 @@ def guard(case, obs):
 
 # --------------------------------------------------------------------------- oracle: the C17 statement on the implementation's observations
 EMPTY = {'names': [], 'index': [], 'values': []}
+OUT_OF_SPAN_SIG = 'C17|TracerMixin.solve_t|t-outside-the-span|IndexError-precedes-the-base-class-exception'
 
 
 def _call_periods(case, call):
@@ -963,6 +964,12 @@ def oracle(case, obs):
                 continue
             clean = (s['out'][0] == 'raise' and s['out'][1] in ('KeyError', 'IndexError')
                      and all(s[k] == prev[k] for k in ('vals', 'status', 'iters')))
+            if clean and periods is None and tw['out'][0] == 'raise' and tw['out'][1] != s['out'][1] and all(0 <= i < nv for i in names):
+                # kept finding: valid names, but a period outside the span — trace_t runs before ANY validation of the base class,
+                # so the traced call reports its own IndexError where the untraced call reports another exception
+                bad(OUT_OF_SPAN_SIG, 'call %d: %s with t outside the span raises %s when traced, %s without trace= (options %s)'
+                    % (ci, ent, s['out'][1], tw['out'][1], {k: call['opts'][k] for k in ('min_iter', 'max_iter')}))
+                break
             if not clean:
                 bad('C17|TracerMixin|unknown-name-or-period-not-rejected-cleanly', 'call %d: expected KeyError/IndexError with no change, got %s' % (ci, s['out']))
             break
@@ -971,7 +978,17 @@ def oracle(case, obs):
                 % (ci, [e for e in s['kwlog'] if e not in s['twin_kwlog']][:2], [e for e in s['twin_kwlog'] if e not in s['kwlog']][:2]))
             break
         want_extra = [['tag', int(call['tag'])]] if call.get('tag') is not None else []
+        last_pass = {}
         for hk, t_, it_, er_, cf_, rest_, nargs_ in s.get('kwlog') or []:
+            # the iteration number each hook is handed: 0 for the pre-hook, 1, 2, .. for the passes, the last pass's for the post-hook
+            want_it = 0 if hk == 'before' else (last_pass.get(t_, 0) + 1 if hk == 'pass' else last_pass.get(t_, 0))
+            if hk == 'before':
+                last_pass[t_] = 0
+            elif hk == 'pass':
+                last_pass[t_] = want_it
+            if it_ != want_it:
+                bad('C17|TracerMixin|hook-iteration-number', 'call %d: hook %s at t=%d was handed iteration=%r, expected %r' % (ci, hk, t_, it_, want_it))
+                break
             if er_ != call['opts']['errors'] or cf_ != call['opts']['catch_first_error'] or rest_ != want_extra or it_ is None or nargs_:
                 bad('C17|TracerMixin|keyword-not-forwarded-to-hook', 'call %d: hook %s at t=%d received iteration=%r errors=%r catch_first_error=%r extra=%r, '
                     'the caller passed errors=%r catch_first_error=%r extra=%r' % (ci, hk, t_, it_, er_, cf_, rest_, call['opts']['errors'],
@@ -1223,7 +1240,7 @@ def scenarios():
     add('maxiter0-raise', conv3, max_iter=0)
     add('min>max', conv3, min_iter=3, max_iter=2)
     add('affine', [[['affine', 0, H(0.5), 0, H(1.0)]]] * 6, max_iter=6, tol=H(0.1))
-    for em in ('raise', 'skip', 'ignore', 'replace', 'bogus'):
+    for em in ('raise', 'skip', 'ignore', 'replace'):       # (an invalid `errors` value is nothing the statement speaks about: not generated)
         add('nan2-' + em, [[['set', 0, H(1.0)]], [['set', 0, H(NAN)]], [['set', 0, H(2.0)]], [['set', 0, H(2.0)]]], errors=em, failures='ignore')
     add('inf1-raise-nocatch', [[['set', 0, H(INF)]]], catch_first_error=False)
     add('nan-last-ignore', [[['set', 0, H(1.0)]], [['set', 0, H(NAN)]]], errors='ignore', max_iter=2)
@@ -1561,7 +1578,7 @@ def _random_case(rng, scen):
         mx = rng.randint(0, 5) if rng.random() < 0.92 else rng.randint(-1, 0)
         mn = rng.randint(0, mx + 1) if mx >= 0 else rng.randint(-2, 1)
         o = _opts(min_iter=mn, max_iter=mx, failures=rng.choice(['raise', 'ignore', 'ignore']),
-                  errors=rng.choice(['raise'] * 3 + ['skip', 'ignore', 'replace', 'bogus']), catch_first_error=rng.random() < 0.6)
+                  errors=rng.choice(['raise'] * 3 + ['skip', 'ignore', 'replace']), catch_first_error=rng.random() < 0.6)
         if rng.random() < 0.2:
             o['tol'] = H(rng.choice([1e-10, 0.5, 0.0, 1.0]))
         if rng.random() < 0.15:
